@@ -179,7 +179,7 @@ def main(argv=None):
     for item in plan:
         cfg = dict(item.get('cfg', {}), property=prop, seed=seed)
         agg = driver.explore(harness_mod, item['fn'], cfg, depth=item.get('depth', 8),
-                             workers=args.workers, budget_s=item.get('budget_s', 600),
+                             workers=args.workers, budget_s=min(item.get('budget_s', 600), float(os.environ.get('VERIF_BUDGET_S', '1e9'))),
                              per_path_timeout=item.get('per_path_timeout', 20.0),
                              root_paths=(REPO, HERE))
         agg['name'] = item['name']
